@@ -6,6 +6,9 @@ EXTENDS PeerIdRules, TLC, Json
 
 \* FALSE: the documented rule; TRUE: the negative model (first /p2p component)
 CONSTANT FirstP2p
+\* FALSE: AddressRecord::new appends unless the address ends with /p2p; TRUE: negative model
+\* (appends only if no /p2p component occurs anywhere)
+CONSTANT AppendIfNone
 
 VARIABLES phase, cls
 vars == <<phase, cls>>
@@ -34,6 +37,10 @@ TableConsistent ==
 MaddrRule ==
   phase = "maddr" =>
     ExpectedMaddr(cls) = (IF FirstP2p THEN FirstComponentRule(MaddrLayout(cls)) ELSE LastComponentRule(MaddrLayout(cls)))
+
+RecordNewRule ==
+  phase = "maddr" =>
+    ExpectedRecordNew(cls) = (IF AppendIfNone THEN RecordNewAnyRule(MaddrLayout(cls)) ELSE RecordNewLastRule(MaddrLayout(cls)))
 
 Emit == PrintT(<<"B", ToJson(
           IF phase' = "maddr"
